@@ -25,12 +25,15 @@ enum Item {
     /// discards a slot: after `call next; pop rax` the stack is empty again although a call
     /// has not returned (the get-PC idiom) - whether a RET is top-level is decided by the stack
     PopRax,
+    /// `push <address of the next item>; ret`: a return without a call (returns may outnumber
+    /// calls, as in a return chain) - it continues at the pushed address, it does not finish
+    PushRet,
     Ret,
     Syscall,
     Int3,
     Invalid,
 }
-const ITEMS: [Item; 14] = [
+const ITEMS: [Item; 15] = [
     Item::Nop,
     Item::MovRax,
     Item::IncRcx,
@@ -41,6 +44,7 @@ const ITEMS: [Item; 14] = [
     Item::JrcxzSkip,
     Item::CallNext,
     Item::PopRax,
+    Item::PushRet,
     Item::Ret,
     Item::Syscall,
     Item::Int3,
@@ -54,6 +58,7 @@ fn item_len(i: Item) -> usize {
         Item::IncRcx => 3,
         Item::JmpNext | Item::JmpEnd | Item::JmpPastEnd | Item::JmpSelf | Item::JrcxzSkip | Item::Syscall => 2,
         Item::CallNext => 5,
+        Item::PushRet => 6,
     }
 }
 
@@ -78,6 +83,11 @@ fn assemble(p: &[Item]) -> Vec<u8> {
             }
             Item::CallNext => out.extend_from_slice(&[0xE8, 0, 0, 0, 0]),
             Item::PopRax => out.push(0x58),
+            Item::PushRet => {
+                out.push(0x68);
+                out.extend_from_slice(&((BASE + pos as u64 + 6) as u32).to_le_bytes());
+                out.push(0xC3);
+            }
             Item::Ret => out.push(0xC3),
             Item::Syscall => out.extend_from_slice(&[0x0F, 0x05]),
             Item::Int3 => out.push(0xCC),
@@ -153,7 +163,25 @@ const STEP_CAP: usize = 96;
 
 /// schedule: Some(k) = k single steps, then execute(); None = single steps only
 fn drive(c: &Cfg, k: Option<usize>, may_loop: bool) -> Result<Final, crate::emu::PanicInfo> {
-    let mut ax = build(c);
+    drive2(c, k, may_loop, false)
+}
+
+/// `late_limit`: the machine is built without a limit; the limit is set after the first step (the
+/// limit is a TOTAL: setting N when one instruction has run leaves N - 1 to go)
+fn drive2(c: &Cfg, k: Option<usize>, may_loop: bool, late_limit: bool) -> Result<Final, crate::emu::PanicInfo> {
+    let mut ax = if late_limit {
+        let mut ax = build(&Cfg { prog: c.prog, code: c.code, limit: None, stack: c.stack, hooks: c.hooks, entry: c.entry });
+        match crate::emu::step(&mut ax) {
+            StepOut::Ok(true) => {}
+            // the run is over before the limit could be set: nothing to compare
+            StepOut::Ok(false) | StepOut::Err(_) => return Ok(Final { fp: 0, result: "<ended-before-the-limit-was-set>".into() }),
+            StepOut::Panic(p) => return Err(p),
+        }
+        ax.set_max_instructions(c.limit.unwrap_or(u64::MAX));
+        ax
+    } else {
+        build(c)
+    };
     let mut last = String::from("none");
     let mut ended = false;
     let steps = k.unwrap_or(STEP_CAP);
@@ -304,6 +332,9 @@ fn model_run(c: &Cfg, viol: &mut Vec<(String, String)>, ctx: &str) -> (u64, u64)
         if i.mnemonic() == Mnemonic::Pop {
             depth -= 1;
         }
+        if i.mnemonic() == Mnemonic::Push {
+            depth += 1;
+        }
         if i.mnemonic() == Mnemonic::Syscall && c.hooks == Hooks::StopBeforeSyscall {
             finish_expected = true;
         }
@@ -410,6 +441,19 @@ fn gen(maxlen: usize) -> impl Fn(&mut EnumCtx) + Sync {
                                                 if f != r {
                                                     let what = if f.result != r.result { "result" } else { "state" };
                                                     viol.push((format!("loop|schedule-divergence|{what}"), format!("{ctx}: {k} steps then execute() ends with {:?} / fp {:#x}; stepping alone ends with {:?} / fp {:#x}", crate::emu::first_line(&f.result), f.fp, crate::emu::first_line(&r.result), r.fp)));
+                                                }
+                                            }
+                                        }
+                                    }
+                                            // the limit set after the first step instead of before it
+                                    if let Some(l) = limit {
+                                        if l >= 1 && hooks == Hooks::None {
+                                            match drive2(&c, None, may_loop, true) {
+                                                Err(p) => viol.push((format!("loop|panic@{}", p.tag()), format!("{ctx}: limit set after the first step: panic"))),
+                                                Ok(f) => {
+                                                    if f.result != "<ended-before-the-limit-was-set>" && (f.result != r.result || f.fp != r.fp) {
+                                                        viol.push(("loop|limit-set-mid-run-is-not-a-total".to_string(), format!("{ctx}: with the limit {l} set after the first step the run ends with {:?} / fp {:#x}; with the limit set before it, {:?} / fp {:#x}", crate::emu::first_line(&f.result), f.fp, crate::emu::first_line(&r.result), r.fp)));
+                                                    }
                                                 }
                                             }
                                         }
